@@ -57,9 +57,19 @@ pub fn materialize(lab: &Lab, step: &[Send], nsocks: usize) -> Vec<Sent> {
                 ReqClass::WellFormed(i) if in_size_range(bytes.len()) => Some(i),
                 _ => None,
             };
-            Sent { sock: s.sock as usize % nsocks, bytes, family: s.d.family(), standard, wellformed }
+            Sent { sock: if s.sock == 255 { PORT0 } else { s.sock as usize % nsocks }, bytes, family: s.d.family(), standard, wellformed }
         })
         .collect()
+}
+
+/// a client socket index, now and then 255 = "the datagram arrives with source port 0" (its reply cannot be sent)
+pub fn sock_strategy(n: u8) -> impl Strategy<Value = u8> {
+    sock_strategy_w(n, 40)
+}
+
+/// one in `w + 1` datagrams comes from source port 0
+pub fn sock_strategy_w(n: u8, w: u32) -> impl Strategy<Value = u8> {
+    prop_oneof![w => 0u8..n, 1 => Just(255u8)]
 }
 
 fn batch_size_strategy() -> impl Strategy<Value = u8> {
@@ -77,7 +87,7 @@ fn c02_scenario(fault: bool) -> impl Strategy<Value = Scenario> {
         Dgram::Std(StdReq { ietf, words, nonce: Hex(crate::refcrypto::sha512(&[b"recur", &[k]])[..n].to_vec()), srv: if ietf && srv { SrvOpt::Correct } else { SrvOpt::Absent }, vers: if ietf { vec![VER_DRAFT13] } else { vec![] } })
     });
     let step = vec_of(
-        (0u8..48, prop_oneof![12 => std_req().prop_map(Dgram::Std), 2 => recurring, 1 => invalid_dgram(), 2 => any_dgram()]).prop_map(|(sock, d)| Send { sock, d }).boxed(),
+        (sock_strategy_w(48, 500), prop_oneof![12 => std_req().prop_map(Dgram::Std), 2 => recurring, 1 => invalid_dgram(), 2 => any_dgram()]).prop_map(|(sock, d)| Send { sock, d }).boxed(),
         prop_oneof![2 => 1usize..=8, 3 => 1usize..=70, 1 => 64usize..=130],
     );
     (seed32(), batch_size_strategy(), if fault { (1u8..=50).boxed() } else { Just(0u8).boxed() }, proptest::collection::vec(step, 1..=6))
@@ -167,7 +177,12 @@ fn c02_step(ctx: &mut Ctx, lab: &Lab, o: &StepObs, step_no: usize) -> Res {
     // because identical IETF batches within one second legitimately share an SREP)
     let mut seen = std::collections::HashSet::new();
     let dups = !o.sent.iter().all(|s| seen.insert(&s.bytes));
-    if !dups {
+    // (also skipped when a request came from source port 0: its reply cannot be sent, so its batch is seen incompletely)
+    let unsendable = o.sent.iter().any(|s| s.sock == PORT0);
+    if unsendable {
+        ctx.class("c02:step-with-unsendable-reply");
+    }
+    if !dups && !unsendable {
         let mut groups: HashMap<&[u8], Vec<&(Proto, RespInfo)>> = HashMap::new();
         for x in &all {
             groups.entry(&x.1.srep).or_default().push(x);
@@ -231,7 +246,7 @@ fn c02_fault_step(ctx: &mut Ctx, lab: &Lab, o: &StepObs, tally: &mut (u64, u64))
 // ------------------------------------------------------------------------------------------------
 
 fn c07_scenario() -> impl Strategy<Value = Scenario> {
-    let step = vec_of((0u8..32, any_dgram()).prop_map(|(sock, d)| Send { sock, d }).boxed(), prop_oneof![3 => 1usize..=12, 2 => 1usize..=70]);
+    let step = vec_of((sock_strategy(32), any_dgram()).prop_map(|(sock, d)| Send { sock, d }).boxed(), prop_oneof![3 => 1usize..=12, 2 => 1usize..=70]);
     (seed32(), batch_size_strategy(), proptest::collection::vec(step, 1..=3)).prop_map(|(seed, batch_size, steps)| Scenario { ipv6: false, seed, batch_size, fault: 0, stats: false, steps })
 }
 
@@ -325,7 +340,7 @@ fn c08_scenario() -> impl Strategy<Value = Scenario> {
         1 => (any::<bool>(), Just(0u16), Just(256u16), any::<u8>()).prop_map(|(ietf, nonce_words, words, fill)| Dgram::NonceLen { ietf, nonce_words, words, fill }),
         1 => (bytes(0usize..=16), Just(65_507u32), any::<u8>()).prop_map(|(prefix, len, fill)| Dgram::Junk { prefix, len, fill }),
     ];
-    let step = proptest::collection::vec((0u8..16, dg).prop_map(|(sock, d)| Send { sock, d }), 0usize..=24).prop_flat_map(|v| {
+    let step = proptest::collection::vec((sock_strategy(16), dg).prop_map(|(sock, d)| Send { sock, d }), 0usize..=24).prop_flat_map(|v| {
         // sometimes repeat one datagram several times
         (Just(v), 0usize..4).prop_map(|(mut v, rep)| {
             if rep > 0 && !v.is_empty() {
@@ -358,7 +373,7 @@ fn c09_scenario() -> impl Strategy<Value = Scenario> {
     ];
     let nsock = 2u8..=48;
     (seed32(), batch_size_strategy(), nsock).prop_flat_map(move |(seed, batch_size, nsock)| {
-        let step = vec_of((0..nsock, req.clone()).prop_map(|(sock, d)| Send { sock, d }).boxed(), prop_oneof![2 => 1usize..=6, 3 => 2usize..=70, 1 => 60usize..=130]);
+        let step = vec_of((prop_oneof![30 => 0..nsock, 1 => Just(255u8)], req.clone()).prop_map(|(sock, d)| Send { sock, d }).boxed(), prop_oneof![2 => 1usize..=6, 3 => 2usize..=70, 1 => 60usize..=130]);
         (Just(seed), Just(batch_size), proptest::collection::vec(step, 1..=4), prop::bool::weighted(0.25)).prop_map(|(seed, batch_size, steps, ipv6)| Scenario { ipv6, seed, batch_size, fault: 0, stats: false, steps })
     })
 }
@@ -421,6 +436,10 @@ fn c09_step(ctx: &mut Ctx, lab: &Lab, o: &StepObs) -> Res {
     let burst = o.sent.len() + 1;
     let bs = lab.cfg.batch_size as usize;
     let mix = protos_in_step.len() >= 2;
+    if o.sent.iter().any(|s| s.sock == PORT0 && s.standard.is_some()) && o.res.port0_sent > 0 {
+        // a valid request whose reply cannot be sent sat in a batch with the others, all of which were answered
+        ctx.class("c09:batch-with-unsendable-reply");
+    }
     let cls = if burst < bs { "burst<batch" } else if burst == bs { "burst=batch" } else { "burst>batch" };
     ctx.class(&format!("c09:{}:{}", cls, if mix { "mixed" } else { "single-proto" }));
     if (mix && socks_involved >= 2) || burst > bs {
@@ -452,7 +471,7 @@ pub fn run_scenario(ctx: &mut Ctx, which: Which, sc: &Scenario) -> Res {
         let sent = materialize(&lab, step, nsocks);
         // keep oversized datagrams few so that nothing is dropped by the kernel
         let sends: Vec<(usize, Vec<u8>)> = sent.iter().map(|s| (s.sock, s.bytes.clone())).collect();
-        let expect = sent.iter().filter(|s| s.standard.is_some()).count();
+        let expect = sent.iter().filter(|s| s.standard.is_some() && s.sock != PORT0).count();
         let res = match lab.step(&sends, if sc.fault == 0 { expect } else { 0 }) {
             Ok(r) => r,
             Err(StepErr::Panic(p)) => {
@@ -608,13 +627,15 @@ pub fn run(which: Which, ctx: &mut Ctx) -> Vec<Violation> {
                 ctx.stats.exhaustive_spaces.push(t.pick("batch_size 1..=64 x burst sizes {1,2,63,64}, two consecutive steps", "batch_size 1..=64 x burst sizes 1..=64, two consecutive steps").into());
             }
             out.extend(v);
+            // several workers of the real binary signing concurrently
+            out.extend(super::procs::c02_process_part(ctx));
             // fault share
             let ps: Vec<u8> = match t {
-                Tier::Quick => vec![1, 10, 25, 50],
+                Tier::Quick => vec![1, 10, 25, 50, 50, 50, 40, 30],
                 Tier::Thorough => (1..=50).collect(),
             };
             let n = t.pick(2_400, 4_000);
-            out.extend(run_enum(ctx, "fault-share", ps.len() as u64, |i| FaultShare { p: ps[i as usize], n, batch_size: [64u8, 16, 7, 1][(i % 4) as usize] }, |ctx, c| fault_share(ctx, c)));
+            out.extend(run_enum(ctx, "fault-share", ps.len() as u64, |i| FaultShare { p: ps[i as usize], n, batch_size: [64u8, 16, 7, 1, 2, 4, 3, 2][(i % 8) as usize] }, |ctx, c| fault_share(ctx, c)));
         }
         Which::C07 => {
             install_logger(log::LevelFilter::Off);
@@ -705,6 +726,9 @@ pub fn run(which: Which, ctx: &mut Ctx) -> Vec<Violation> {
 }
 
 pub fn replay(which: Which, ctx: &mut Ctx, sub: &str, case: &Value) -> Res {
+    if sub == "multi-worker-real-binary" {
+        return super::procs::replay_c18(ctx, sub, case);
+    }
     if sub == "fault-share" {
         install_logger(log::LevelFilter::Off);
         return replay_case::<FaultShare, _>(ctx, case, |ctx, c| fault_share(ctx, c));
